@@ -81,7 +81,7 @@ def nontrivial(chk, p, r, m):
 
 
 def run(chk):
-    n = 300 if chk.tier == "quick" else 8000
+    n = 900 if chk.tier == "quick" else 8000
     chk.rule = ("random multi-builder/multi-app projects (overridden rules incl. identical commands with different `always`, non-shareable rules, "
                 "custom builds, downloads, build deps, some without a per-build bindir) through the real CLI; whole ninja file compared with the "
                 "model's; oracle: strict parser for the ninja subset laze emits, then duplicate outputs, duplicate/late/undefined rules, missing "
